@@ -11,7 +11,7 @@
 From Coq Require Import List ZArith Bool.
 Import ListNotations.
 From LC Require Import Base Tree Fp Lookup Api ApiStep ScanAction FlexEngine Tokens Lexer Parser Reader
-  Writer WriteFile RwFacts.
+  Writer WriteFile RwFacts Bisim GrammarFacts ParseComplete ParseFail ParseExact ReadSyntax.
 From LC.gen Require Import Consts.
 Local Open Scope Z_scope.
 
@@ -71,3 +71,40 @@ Example C09_example :
   (c_err c2 = mkErr 2 (Some ERR_DUPLICATE_SETTING) None 3) /\
   (c_err c3 = err0).
 Proof. vm_compute. repeat split. Qed.
+
+
+(* ---- WHICH error a failing read reports (ReadSyntax.v, shared with C02): within the nesting limit every read has exactly
+   one of three outcomes; in the two failing ones the four fields are: type 2 (parse), and either the message, file and line
+   of the first semantic offence of a derivable text, or "syntax error" (or the scanner's own text for an error token) with
+   the file and line of the first token that cannot continue a derivation.  Together with C09_own_report (no dependence on
+   earlier calls) this is the property: a failing read reports its own error type, message, file and line of the offending
+   token ---- *)
+Theorem C09_failing_read_fields : forall atof FS c top text,
+  (forall f content, fs_lookup FS f = Some (FFile content) -> bytes_ok content) -> bytes_ok text ->
+  let toks := fst (lex_top atof FS (set_files (set_root (set_err c err0) new_root) []) top text) in
+  let ov := get_option c OPT_OVERRIDES in
+  let root0 := set_pos new_root 0 top in
+  let r := config_read atof FS c top text in
+  let res := p_config ov (mkP root0 toks false O 0 None) in
+  max_nest toks 0 0 <= NEST_LIMIT ->
+  (rd_out_ r = RdOk /\
+   exists ms, wf_m ms = true /\ spells ms toks /\ sem_m ov ms [] = true /\
+              pobs (c_root (rd_cfg r)) = PN None None PGroup 0 (den_m ms [])) \/
+  (rd_out_ r = RdFail /\
+   exists e s', res = PErr e s' /\ (e = PErrDup \/ e = PErrMismatch) /\
+     forall ms, wf_m ms = true -> spells ms toks ->
+       sem_m ov ms [] = false /\
+       exists l fi, err_m ov ms [] = Some (e, (l, fi)) /\ c_err (rd_cfg r) = mkErr 2 (Some (perr_text e)) fi l) \/
+  (rd_out_ r = RdFail /\
+   (forall ms, wf_m ms = true -> ~ spells ms toks) /\
+   exists s' pre t rest,
+     res = PErr PErrSyntax s' /\ toks = pre ++ t :: rest /\ p_toks s' = t :: rest /\
+     c_err (rd_cfg r) = match lt_err t with
+                        | None => mkErr 2 (Some ERR_SYNTAX) (lt_file t) (lt_line t)
+                        | Some (txt, f, l) => mkErr 2 (Some txt) (lt_file t) l
+                        end /\
+     (lt_err t <> None -> lt_tok t = TkError) /\
+     (forall rest' ts junk, map lt_tok (pre ++ t :: rest') = ts ++ TkEOF :: junk -> ~ Dsettings ts) /\
+     (exists suffix s3, p_config ov (mkP root0 (pre ++ suffix) false O 0 None) = POk s3)).
+Proof. intros atof FS c top text HFS Hb. cbv zeta. apply read_trichotomy; assumption. Qed.
+Print Assumptions C09_failing_read_fields.
